@@ -203,6 +203,41 @@ def concurrent_cas(t):
     return False
 
 
+K13_SIG = "sqlite:multi-statement-read-not-a-snapshot"
+
+
+def without_overlapping_getters(t):
+    """the same history minus the read calls that overlap a call of another worker (shape of recorded finding K13)"""
+    ev, open_calls, drop = t["ev"], {}, set()
+    spans = []          # (worker, start index, end index, is_getter)
+    for i, e in enumerate(ev):
+        if e["e"] == "start":
+            open_calls[e["w"]] = i
+        elif e["e"] == "end" and e["w"] in open_calls:
+            s0 = open_calls.pop(e["w"])
+            spans.append((e["w"], s0, i, ev[s0]["op"]["a"].startswith("get_")))
+    for w, a, b, g in spans:
+        if g and w > 0 and any(w2 != w and not (b2 < a or a2 > b) for w2, a2, b2, g2 in spans):
+            drop |= {a, b}
+    if not drop:
+        return None
+    return [e for i, e in enumerate(ev) if i not in drop]
+
+
+def classify_torn_reads(ctx, rejected_traces):
+    """rejected traces that become linearizable once the overlapping reads are left out are the recorded finding K13"""
+    cand = []
+    for t in rejected_traces:
+        ev = without_overlapping_getters(t)
+        if ev is not None:
+            cand.append((t, ev))
+    if not cand or ctx.match_known(K13_SIG) is None:
+        return set()
+    v = tlc.validate("LinStorage", "LinStorage", [{"tid": i + 1, "workers": t["workers"], "ev": ev} for i, (t, ev) in enumerate(cand)],
+                     shards=4, timeout=1200)
+    return {id(cand[i - 1][0]) for i in v.accepted}
+
+
 def judge(ctx, traces, label):
     for i, t in enumerate(traces):
         t["tid"] = i + 1
@@ -211,6 +246,8 @@ def judge(ctx, traces, label):
                      shards=16, timeout=2400)
     ctx.validated(v, label)
     k1 = 0
+    torn = classify_torn_reads(ctx, [traces[tid - 1] for tid in v.rejected if not concurrent_cas(traces[tid - 1])])
+    ctx.notes["k13_schedules"] = ctx.notes.get("k13_schedules", 0) + len(torn)
     for tid in sorted(v.rejected):
         t = traces[tid - 1]
         calls = [f"w{e['w']}:{e['op']['a']}->{json.dumps(e['ret'])[:80]}" for e in t["ev"] if e["e"] == "start" and e["w"] > 0]
@@ -218,6 +255,9 @@ def judge(ctx, traces, label):
         if f is not None:
             k1 += 1
             ctx.known_finding(f, f"e.g. {calls} choices={t['choices']}")
+            continue
+        if id(t) in torn:
+            ctx.known_finding(ctx.match_known(K13_SIG), f"e.g. {calls} choices={t['choices']}")
             continue
         ctx.violation(f"SQLite connections interleaved per statement: no linearization explains {calls} "
                       f"(deadlock={t['deadlock']})", {"replay": t["replay"], "choices": t["choices"], "events": t["ev"]})
